@@ -186,7 +186,7 @@ func unq(raw string) (string, bool) {
 
 // ---------------------------------------------------------------- value pools
 var encStrings = []string{"", "plain", "with \"quotes\"", `back\slash`, "line\nbreak\r\ttab", "ctl\x01\x1f", "del\x7f",
-	"bad\xffutf\xc3", "\xe4\xb8", "héllo wörld ✓ 日本語", "pipe||eq=sign", "  ", strings.Repeat("long", 300)}
+	"bad\xffutf\xc3", "\xe4\xb8", "héllo wörld ✓ 日本語", "valid \ufffd replacement rune", "sep\u2028\u2029 nul\x00", "\U0010ffff\u0080", "pipe||eq=sign", "  ", strings.Repeat("long", 300)}
 var encKeys = []string{"k", "key2", "", "a\"b", "x=y", "p|q", "nl\nkey", "bad\xfe", "ключ", "msg", "level", "k"}
 var encInts = []int64{math.MinInt64, -1, 0, 1, math.MaxInt64, 1234567890123, -42}
 var encUints = []uint64{0, 1, math.MaxUint64, math.MaxInt64 + 1, 4294967296}
@@ -713,11 +713,13 @@ func cmdEncoder(f hx.Flags, r *hx.Result) {
 		}
 		n++
 		distinct++
+		instant := time.Unix(rng.Int63n(4e9), int64(rng.Intn(1e9)))
 		for v := 0; v < variants; v++ {
 			fields, want, _ := g.members(c.Calls, 0, true)
 			e := &log.Event{}
 			e.Level = levels[rng.Intn(len(levels))]
-			e.Time = time.Unix(rng.Int63n(4e9), int64(rng.Intn(1e9))).In(zones[rng.Intn(len(zones))])
+			// the variants of one case share the instant but not the zone
+			e.Time = instant.In(zones[(n+v)%len(zones)])
 			e.File = strings.Repeat("d/", rng.Intn(40)) + "file.go"
 			if rng.Intn(6) == 0 {
 				e.File = strings.Repeat("x", rng.Intn(300))
